@@ -3,6 +3,13 @@
 #include <stdint.h>
 #include <string.h>
 union symx_vec { uint32_t d[8]; uint64_t q[4]; double pd[4]; uint8_t b[32]; };
+/* padding that aligns p to A+1 bytes. Under the checker object bases are aligned (its address model puts the offset in the
+   low bits), so the padding is a function of the offset alone and folds to a constant; natively it is the real padding. */
+#ifdef __CPROVER__
+#  define SYMX_ALIGN_PAD(p, A) ((uint64_t)((A) + 1 - (((uint64_t)__CPROVER_POINTER_OFFSET(p)) & (A))) & (A))
+#else
+#  define SYMX_ALIGN_PAD(p, A) ((uint64_t)(0 - (uint64_t)(uintptr_t)(p)) & (A))
+#endif
 #if defined(__CPROVER__) && defined(SYMX_FP_UF)
 /* floating-point operations as uninterpreted functions (commutativity of + and * kept by operand normalisation):
    used where a property is about which expression / which cells are computed, not about rounding */
